@@ -352,7 +352,8 @@ def mergeSingleCore (m1 m2 : Atom) (isAnd : Bool) : Option M :=
 
 /-- `_merge_single_markers` (single.py:378-422); `none` = `None` -/
 def mergeSingle (m1 m2 : Atom) (isAnd : Bool) : Option M :=
-  if m1.exactView && m2.exactView then mergeSingleCore m1 m2 isAnd else none
+  if m1.beq m2 then some (.expr m1)      -- the `fix:` a389c12: an atom combined with itself
+  else if m1.exactView && m2.exactView then mergeSingleCore m1 m2 isAnd else none
 
 /-! ### the engine -/
 
